@@ -28,7 +28,7 @@ def plan(tier):
                 'transport rewrites responses into every failure reason with messages of length 0-200 or no message, '
                 'non-success statuses, and truncations at every byte class; every emitted request is fed to the '
                 'server decoder; a cell is (method, version, response class, outcome)',
-        'min_monitor': {'client_calls': 1500, 'results_compared_with_wire': 300, 'failures_compared': 500, 'request_arguments_checked': 400,
+        'min_monitor': {'client_calls': 1500, 'results_compared_with_wire': 300, 'failures_compared': 500, 'request_arguments_checked': 400, 'batch_results_compared': 300,
                         'truncations_checked': 200, 'requests_checked_decodable': 1000},
         'assumptions': ['a legal failure response carries status, reason and an optional message',
                         'responses with a wrong operation echo or a wrong item count are not legal and are not generated'],
@@ -37,7 +37,7 @@ def plan(tier):
 
 def cases(tier, seed):
     n = 160 if tier == 'quick' else 1280
-    return [{'run': i} for i in range(n)]
+    return [{'run': i} for i in range(n)] + [{'batch': i} for i in range(16 if tier == 'quick' else 160)]
 
 
 class TamperSocket(rig.LoopSocket):
@@ -540,7 +540,108 @@ def calls(rng, env, version):
     return out
 
 
+def run_batches(ctx, case):
+    """Batched requests of KMIPProxy (the batch-item builders, _build_request_message, _process_batch_items): 2 to 14 items,
+    some failing, labelled by the library or by the caller (ascending, descending, arbitrary IDs).  Result i the client
+    reports must be the server's answer to request item i - the answer being identified on the wire by the item's ID."""
+    rng = ctx.rng()
+    rig.install_clock(rig.VClock(step=1))
+    cert = rig.make_cert(('alice',), 'client')
+    with rig.scratch_dir() as d:
+        srv = rig.Server(d + '/db.sqlite')
+        try:
+            env = setup_env(srv, rng)
+            if not all(env.values()):
+                ctx.unsure('environment setup failed')
+                return
+            sock = TamperSocket(srv.engine, cert, rng)
+            client = rig.make_client(sock)
+            proxy = client.proxy
+            uids = [o.uid for o in env.values() if o]
+            for rnd in range(12):
+                version = rng.choice([v for v in KV if v >= E.KMIPVersion.KMIP_1_1])
+                client.kmip_version = version
+                n = rng.choice((2, 3, 5, 9, 10, 11, 12, 14))
+                items, wants = [], []
+                for i in range(n):
+                    k = rng.randrange(4)
+                    if k == 0:
+                        u = rng.choice(uids + ['99999', '88888'])
+                        items.append(proxy._build_get_attributes_batch_item(u, rng.choice((['Name'], ['State'], None))))
+                        wants.append(('GET_ATTRIBUTES', u))
+                    elif k == 1:
+                        u = rng.choice(uids + ['77777'])
+                        items.append(proxy._build_get_attribute_list_batch_item(u))
+                        wants.append(('GET_ATTRIBUTE_LIST', u))
+                    elif k == 2:
+                        items.append(proxy._build_query_batch_item([E.QueryFunction.QUERY_OPERATIONS]))
+                        wants.append(('QUERY', None))
+                    else:
+                        items.append(proxy._build_discover_versions_batch_item())
+                        wants.append(('DISCOVER_VERSIONS', None))
+                labels = rng.choice(('library', 'library', 'descending', 'arbitrary', 'numeric-wide'))
+                from kmip.core.messages import contents as _contents
+                if labels != 'library':
+                    ids = {'descending': [b'%c' % (ord('z') - i) for i in range(n)],
+                           'arbitrary': [bytes(rng.getrandbits(8) for _ in range(4)) + b'%d' % i for i in range(n)],
+                           'numeric-wide': [b'%d' % (i + 1) for i in range(n)][::-1]}[labels]
+                    for it, bid in zip(items, ids):
+                        it.unique_batch_item_id = _contents.UniqueBatchItemID(bid)
+                nwire = len(sock.wire)
+                sock.transform = None
+                try:
+                    request = proxy._build_request_message(None, items)
+                    response = proxy._send_and_receive_message(request)
+                    results = proxy._process_batch_items(response)
+                except Exception as e:
+                    ctx.count('batch_not_sent')
+                    ctx.cell('batch', n, labels, 'raised:' + type(e).__name__)
+                    continue
+                ctx.ev()
+                ctx.count('client_batches')
+                wire = sock.wire[nwire:]
+                if not wire:
+                    continue
+                req, orig, deliv = wire[-1]
+                rq, rs = T.decode(req, strict=False), rig.Result(deliv)
+                req_items = [k for k in rq[2] if k[0] == T.T_BATCH_ITEM]
+                if len(req_items) != n:
+                    ctx.violation('batch|request-items', 'the client sent %d items for a batch of %d' % (len(req_items), n), None)
+                    continue
+                # the server's answer to request item i: the response item that echoes its ID (position when there is no ID)
+                by_id = {}
+                for it in rs.items:
+                    by_id.setdefault(it['id'], []).append(it)
+                ctx.cell('batch', n, labels, '%d answers' % len(rs.items))
+                detail = {'n': n, 'labels': labels, 'version': version.name, 'answers': rs.brief()}
+                if len(results) != len(rs.items):
+                    ctx.violation('batch|result-count', 'the server answered %d items, the client reports %d results' % (len(rs.items), len(results)), detail)
+                    continue
+                for i, (ri, res) in enumerate(zip(req_items, results)):
+                    rid = T.val(ri, T.T_UNIQUE_BATCH_ITEM_ID)
+                    ans = (by_id.get(rid) or [None])[0] if rid is not None else (rs.items[i] if i < len(rs.items) else None)
+                    if ans is None:
+                        continue
+                    ctx.count('batch_results_compared')
+                    try:
+                        got_status = res.result_status.value.value
+                    except Exception:
+                        got_status = getattr(getattr(res, 'result_status', None), 'value', None)
+                        got_status = getattr(got_status, 'value', got_status)
+                    got_uid = getattr(res, 'uuid', None) or getattr(res, 'uid', None)
+                    got_uid = getattr(got_uid, 'value', got_uid)
+                    want_uid = T.val(ans['payload'], T.T_UNIQUE_IDENTIFIER) if ans['payload'] is not None else None
+                    if got_status != ans['status'] or (wants[i][1] is not None and ans['status'] == 0 and got_uid is not None and got_uid != want_uid):
+                        ctx.violation('batch|result-of-another-item|%s' % labels, 'result %d of a %d-item batch (%s IDs) reports status %s / identifier %s; '
+                                      'the server answered that item with status %s / identifier %s' % (i, n, labels, got_status, got_uid, ans['status'], want_uid), detail)
+                        break
+        finally:
+            srv.close()
+
+
 def run_case(ctx, case):
+    if 'batch' in case:
+        return run_batches(ctx, case)
     rng = ctx.rng()
     rig.install_clock(rig.VClock(step=1))
     cert = rig.make_cert(('alice',), 'client')
